@@ -20,7 +20,7 @@ prop('C01', ['K1', 'M1', 'M2', 'M3', 'M7', 'T4', 'DC1', 'DC4'],
      ['identity of leaf objects at every position', 'equality of the re-flattened treespec',
       'any n replacement leaves round-trip'])
 
-prop('C02', ['K5', 'K6', 'NS1', 'K2', 'D2', 'T2', 'M7', 'K4'],
+prop('C02', ['K5', 'K6', 'NS1', 'K2', 'D2', 'T2', 'M7', 'K4', 'T1', 'T3', 'T3b'],
      'Leaf order and classification, structural part: the user predicate is consulted before the '
      'registry and a true answer never reaches it (K5, on the CFG of all 5 classification sites); '
      'lookup order namespace map -> global map -> struct sequence -> namedtuple with the exact '
@@ -29,7 +29,9 @@ prop('C02', ['K5', 'K6', 'NS1', 'K2', 'D2', 'T2', 'M7', 'K4'],
      'the caller\'s namespace is in sorted mode (D2); the key sort has the documented three stages '
      'with only TypeError moving on and the input order as last resort (T2); OrderedDict is '
      'enumerated in its own order (M7); every traversal visits children left to right under its '
-     'discipline (K4).',
+     'discipline (K4). '
+     'The namedtuple / struct-sequence recognisers classification rests on test the documented '
+     'atoms (T1) and their per-type caches cannot answer for a class that has died (T3, T3b).',
      ['equal dicts flatten equally for all inputs', 'None-removal law', 'predicate idempotence'])
 
 prop('C03', ['K1', 'K3', 'K4', 'K5', 'K7', 'K8', 'M7', 'F1', 'F14', 'F7', 'F10', 'T4', 'T2', 'NS1', 'D2', 'N1', 'N2', 'M1', 'K2'],
